@@ -207,6 +207,58 @@ def bulk_advance_rule(rep, u, own_file):
     return n
 
 
+def loop_save_rule(rep, u, own_file):
+    """block loops of the compression functions keep a copy of the chaining state for the feed-forward ("save current hash"):
+    S = V with V updated in the loop and S read in the loop.  The copy is taken inside the loop, once per block - taken once
+    before the loop, every block after the first adds the state at entry instead of the state after the previous block."""
+    n = 0
+    for fn in u.function_list:
+        if fn.relfile() != own_file or not fn.has_cfg or "transform" not in fn.name:
+            continue
+        loops = fn.loops()
+        pptr = {p["n"] for p in fn.params if u.type(p["t"])["k"] == "ptr"}
+        blk = None
+        for h, body in loops.items():
+            c = fn.blocks[h].cond
+            c0 = strip_casts(c) if c is not None else None
+            if c0 is not None and c0.get("k") == "bin" and c0["op"] in ("<", "!=", "<=") and \
+                    {r["n"] for r in core.refs(c0)} <= pptr and len({r["n"] for r in core.refs(c0)}) == 2:
+                blk = (h, set(body))
+        if blk is None:
+            continue
+        h, body = blk
+        written_in_loop = set()
+        read_in_loop = set()
+        copies = []
+        for pos, root, x, ps in fn.nodes():
+            if x.get("k") == "bin" and x["op"].endswith("=") and x["op"] not in ("==", "!=", "<=", ">="):
+                l = strip_casts(x["x"])
+                if l.get("k") == "ref" and l.get("dk") == "local":
+                    if pos[0] in body:
+                        written_in_loop.add(l["id"])
+                    r = strip_casts(x["y"])
+                    if x["op"] == "=" and r.get("k") == "ref" and r.get("dk") == "local":
+                        copies.append((pos, x, l, r))
+            if x.get("k") == "ref" and x.get("dk") == "local" and pos[0] in body:
+                is_lhs = ps and ps[-1].get("k") == "bin" and ps[-1]["op"] == "=" and strip_casts(ps[-1]["x"]) is x
+                if not is_lhs:
+                    read_in_loop.add(x["id"])
+        for pos, x, l, r in copies:
+            if r["id"] not in written_in_loop or l["id"] not in read_in_loop:
+                continue
+            others = [p2 for p2, x2, l2, r2 in copies if l2["id"] == l["id"]]
+            n += 1
+            rep.functions.add(fn.name)
+            inst = "loop-save:%s=%s" % (l["n"], r["n"])
+            desc = "%s: the copy %s = %s of the chaining state used by the feed-forward is taken inside the block loop" % (fn.name, l["n"], r["n"])
+            if pos[0] in body:
+                rep.proved("R-SPEC", fn, inst, desc, "line %s" % x.get("ln"), x.get("ln"))
+            else:
+                rep.violated("R-SPEC", fn, inst, desc, "the copy at line %s is taken before the loop while %s changes in every iteration: from the second "
+                             "block of one call on, the feed-forward uses the state at entry" % (x.get("ln"), r["n"]), x.get("ln"))
+    return n
+
+
 def run(rep, tier):
     specs = hashes.units(tier)
     us = driver.load_units([s for (_, _, s) in specs])
@@ -233,6 +285,10 @@ def run(rep, tier):
     for (h, lab, s) in specs:
         na += bulk_advance_rule(rep, us[s.label], "include/" + hashes.HASHES[h]["hdr"])
     rep.floor("in-place bulk compressions", na, 3)
+    nls = 0
+    for (h, lab, s) in specs:
+        nls += loop_save_rule(rep, us[s.label], "include/" + hashes.HASHES[h]["hdr"])
+    rep.floor("per-block state copies", nls, 2)
     from props import c04_tables, c04_more
     c04_tables.run(rep, specs, us, tier)
     c04_more.run(rep, specs, us, tier)
